@@ -392,6 +392,25 @@ Example C01_dynamic_fork_witness :
     = Some (8, 9, [104; 106; 105; 109; 107; 110; 108; 111; 113; 112; 115]).
 Proof. vm_compute. repeat split; reflexivity. Qed.
 
+(* THE SAME FORK BY SCHEDULING ALONE: in the 82-event history ws of Proofs/WindowWitness.v EVERY coin bit is
+   true (no event hash with a zero middle byte), i.e. nothing but the order of delivery is adversarial:
+   event 54 gets round 8 / 7 and the blocks of index 7 differ.  corpus/C01-window-fork-sched.json replays it
+   on two real cores. *)
+Example C01_dynamic_fork_by_scheduling :
+  forallb e_coin ws_all = true /\
+  distinctb (map e_id ws_all) = true /\ distinctb (map e_sigkey ws_all) = true /\ fork_freeb ws_all = true /\
+  (length ws_ordb = 82%nat /\ forallb (fun i => existsb (Z.eqb i) ws_ordb) (zseq 0 82) = true) /\
+  let sa := hrun (init_hg 0 ww_g []) (map HInsert ws_all) in
+  let sb := hrun (init_hg 1 ww_g []) (map HInsert ws_all') in
+  failed sa = false /\ failed sb = false /\
+  map (fun p => (fst p, length (snd p))) (peersets sa) = [(0, 4%nat); (7, 5%nat)] /\
+  map (fun p => (fst p, length (snd p))) (peersets sb) = [(0, 4%nat); (7, 5%nat)] /\
+  (rnd sa 54, rnd sb 54) = (Some 8, Some 7) /\
+  map (fun b => (b_index b, b_rr b, b_txs b)) (firstn 7 (delivered sa)) = map (fun b => (b_index b, b_rr b, b_txs b)) (firstn 7 (delivered sb)) /\
+  option_map (fun b => (b_index b, b_rr b, b_txs b)) (nth_error (delivered sa) 7) = Some (7, 8, [46; 47; 49; 50; 51; 52; 53]) /\
+  option_map (fun b => (b_index b, b_rr b, b_txs b)) (nth_error (delivered sb) 7) = Some (7, 8, [46; 47; 49; 48; 50; 51; 52; 53; 55]).
+Proof. exact ws_facts. Qed.
+
 (* non-vacuity on the two nodes above: node 1 (17 events) has delivered 6 blocks, node 0 (24 events) 9;
    the six are the first six of the nine *)
 Example C01_example_blocks :
